@@ -15,10 +15,12 @@ from sqv.core import Failure, Stats
 ID = 'C09'
 LEVEL = 'exploration'
 RULE = ('Typed statement shapes (assignment, compound assignment, index assignment, compound index assignment, del, '
-        'expression statement) over 32 expression node kinds (arithmetic, comparison, in/not in, and, or, unary minus, not, '
-        'if-else, calls with 0-3 arguments, method and pipe calls, list and dict literals, index, four slice forms) with a '
+        'expression statement) over 42 expression node kinds (arithmetic, comparison, in/not in, and, or, unary minus, not, '
+        'if-else, the unparenthesised chain a if c else b if c2 else d, calls with 0-3 arguments, method and pipe calls, list '
+        'and dict literals, index, four slice forms, a lambda body run twice by map) with a '
         'logging host probe at every leaf: ALL shapes up to the stated number of internal nodes x ALL truth assignments of '
-        'the scalar probes x every choice of one raising probe or none (exhaustive; distinct by construction), plus '
+        'the scalar probes x every choice of one raising probe or none (exhaustive; distinct by construction), the '
+        'non-raising cases again on a parser with a parse cache (one tree evaluated under every assignment), plus '
         'Hypothesis-sampled larger shapes. Oracle: probe log equal to the reference evaluator\'s (exactly once, in order, '
         'nothing after a raising probe), same value and type. Non-trivial: >= 2 probes and a lazy construct, or >= 3 probes.')
 ASSUMPTIONS = ['every sub-expression is rendered parenthesised so that grouping (C06) cannot interfere',
@@ -36,6 +38,8 @@ KINDS = [
     ('list1', 'C', ('N',)), ('list2', 'C', ('N', 'N')), ('dict1', 'N', ('N', 'N')), ('dict2', 'N', ('N', 'N', 'N', 'N')),
     ('idx', 'N', ('C', 'I')), ('sl_ab', 'C', ('C', 'I', 'I')), ('sl_a', 'C', ('C', 'I')), ('sl_b', 'C', ('C', 'I')),
     ('sl_c', 'C', ('C', 'I')),
+    ('ifc', 'N', ('N', 'N', 'N', 'N', 'N')),     # a if c1 else b if c2 else d, unparenthesised: the else branch extends to the right
+    ('maplam', 'C', ('N',)),                     # map([1, 2], v => E): the same body node is evaluated twice
 ]
 STMTS = [('assign', ('N',)), ('short', ('N',)), ('setitem', ('C', 'I', 'N')), ('setop', ('C', 'I', 'N')), ('del', ('C', 'I')),
          ('expr', ('N',)), ('exprC', ('C',)), ('shortmul', ('N',)), ('setopmul', ('C', 'I', 'N'))]
@@ -89,6 +93,10 @@ def render(sh, ctr, lab=None):
         e = render(sh[3], ctr, lab)
         return f'({a} if {b} else {e})'
     c = [render(x, ctr, lab) for x in sh[1:]]
+    if k == 'ifc':
+        return f'({c[0]} if {c[1]} else {c[2]} if {c[3]} else {c[4]})'
+    if k == 'maplam':
+        return f'map([1, 2], v => {c[0]})'
     if k in BINSYM:
         return f'({c[0]} {BINSYM[k]} {c[1]})'
     if k == 'neg':
@@ -176,7 +184,7 @@ def nodes(sh):
 
 
 def has_lazy(sh):
-    return sh[0] in ('and', 'or', 'if') or any(has_lazy(x) for x in sh[1:] if isinstance(x, tuple))
+    return sh[0] in ('and', 'or', 'if', 'ifc') or any(has_lazy(x) for x in sh[1:] if isinstance(x, tuple))
 
 
 def ev(sh, ctr, truth, raises, log, lab=None):
@@ -209,6 +217,13 @@ def ev(sh, ctr, truth, raises, log, lab=None):
             r = ev(sh[3], ctr, truth, raises, log, lab)
         ctr[0] = after + count(sh[3])
         return r
+    if k == 'ifc':
+        return ev(('if', sh[1], sh[2], ('if', sh[3], sh[4], sh[5])), ctr, truth, raises, log, lab)
+    if k == 'maplam':
+        c0 = ctr[0]
+        r1 = ev(sh[1], ctr, truth, raises, log, lab)
+        ctr[0] = c0
+        return [r1, ev(sh[1], ctr, truth, raises, log, lab)]
     v = [ev(x, ctr, truth, raises, log, lab) for x in sh[1:]]
     if k == 'add':
         return v[0] + v[1]
@@ -329,7 +344,19 @@ def bool_positions(sh, ctr, out):
         bool_positions(x, ctr, out)
 
 
-def run_one(sh, truth, raises, labmode='distinct'):
+_cached = None
+
+
+def cached_parser():
+    """a parser with a parse cache: the same tree is evaluated again under every other truth assignment"""
+    global _cached
+    if _cached is None or len(_cached.parse_cache) > 5000:
+        from smartquery import SqParser
+        _cached = SqParser(parse_cache={})
+    return _cached
+
+
+def run_one(sh, truth, raises, labmode='distinct', cached=False):
     """-> (failure message or None, src); labmode: how leaf positions map to probe labels (identical sub-expressions!)"""
     lab = None if labmode == 'distinct' else LABELS[labmode]
     src = render(sh, [0], lab)
@@ -350,7 +377,7 @@ def run_one(sh, truth, raises, labmode='distinct'):
 
     names = {'t': mk('N'), 'tc': mk('C'), 'ti': mk('I'), 'h': h, 'x': D(1)}
     try:
-        got = parser().eval(src, names, max_ops_evaluated=10 ** 6)
+        got = (cached_parser() if cached else parser()).eval(src, names, max_ops_evaluated=10 ** 6)
         res = 'ok'
     except Raise:
         res, got = 'raise', None
@@ -365,7 +392,7 @@ def run_one(sh, truth, raises, labmode='distinct'):
     except Exception as e:  # noqa
         eres, exp = 'exc:' + type(e).__name__, None
     if log != elog:
-        return f'{src}: probe log {log}, expected {elog} (truth {truth}, raising probe {raises})', src
+        return f'{src}: probe log {log}, expected {elog} (truth {truth}, raising probe {raises})' + (' on a parser with a parse cache' if cached else ''), src
     if res.startswith('exc') or eres.startswith('exc'):
         if res.startswith('exc') != eres.startswith('exc') and 'raise' not in (res, eres):
             return f'{src}: outcome {res}, expected {eres} (truth {truth})', src
@@ -397,7 +424,10 @@ def to_tuple(x):
 def run_case(case):
     sh = to_tuple(case['shape'])
     truth = {int(k): v for k, v in case['truth'].items()}
-    msg, src = run_one(sh, truth, case['raises'], case.get('labels', 'distinct'))
+    msg, src = run_one(sh, truth, case['raises'], case.get('labels', 'distinct'), case.get('cached', False))
+    if case.get('cached') and not msg:
+        # the tree of this text is in the cache now: evaluate it once more with the truth values flipped
+        msg, src = run_one(sh, {k: not v for k, v in truth.items()}, case['raises'], case.get('labels', 'distinct'), True)
     return [Failure(signature(sh), msg, case)] if msg else []
 
 
@@ -445,6 +475,13 @@ def run_job(job):
                             if nt and st.evaluations % 20011 == 0 else None)
                     if msg:
                         st.fail(Failure(signature(sh), msg, {'shape': sh, 'truth': {str(k): v for k, v in truth.items()}, 'raises': raises}))
+                    elif raises is None:
+                        # once more on the parser with a parse cache (its tree was, or will be, evaluated under the other assignments)
+                        msg, src = run_one(sh, truth, None, cached=True)
+                        st.case(nontrivial=nt, distinct_by_construction=True, classes=(f'enum:{n}-nodes:cached-tree',), sample=None)
+                        if msg:
+                            st.fail(Failure('cached:' + signature(sh), msg, {'shape': sh, 'truth': {str(k): v for k, v in truth.items()},
+                                                                             'raises': None, 'cached': True}))
                 # identical sub-expressions: all probes share one label / alternate between two labels (no raising probe)
                 if count(sh) >= 2 and (n < 3 or idx % 8 == 0):
                     for labmode, nlab in (('same', 1), ('mod2', 2)):
